@@ -339,15 +339,16 @@ __CPROVER_ensures(__CPROVER_return_value >= 0 && __CPROVER_return_value <= g_E &
 enum { VGT_macro_xs = 0, VGT_energy_loss = 1, VGT_range = 2 };   /* ValueGridType (bound) */
 /* IEEE-754 facts about correctly rounded multiplication, assumed (no installed solver decides 53-bit FP products; checked for
  * binary32 in unit c01_fmul_lemmas_f32): rounding is monotone, so  x >= 0, 0 < l <= 1  =>  0 <= x*l <= x,  and  a > 0, b >= 0  =>  a*b >= 0 */
+real_type g_thresh, g_lin;   /* ghost: the last linear-loss threshold (limit * E) and the last linear estimate (step * dE/dx) formed */
 real_type FMUL_frac(real_type x, real_type l)
 __CPROVER_requires(x >= 0 && l > 0 && l <= 1)
-__CPROVER_assigns()
-__CPROVER_ensures(__CPROVER_return_value >= 0 && __CPROVER_return_value <= x)
+__CPROVER_assigns(g_thresh)
+__CPROVER_ensures(__CPROVER_return_value >= 0 && __CPROVER_return_value <= x && g_thresh == __CPROVER_return_value)
 ;
 real_type FMUL_nonneg(real_type a, real_type b)
 __CPROVER_requires(a > 0 && b >= 0)
-__CPROVER_assigns()
-__CPROVER_ensures(__CPROVER_return_value >= 0)
+__CPROVER_assigns(g_lin)
+__CPROVER_ensures(__CPROVER_return_value >= 0 && g_lin == __CPROVER_return_value)
 ;
 """
 
@@ -364,10 +365,10 @@ CMEL_RULES = Q_RULES + [
     Rule(r"auto calc_eloss_rate\s*=\s*physics\.make_calculator<EnergyLossCalculator>\(grid_id\);", "size_type calc_eloss_rate = grid_id;", 1, note="calculator object -> its grid id (functor call lowered below)"),
     Rule(r"step \* calc_eloss_rate\(pre_step_energy\)", "FMUL_nonneg(step, ELC_call(calc_eloss_rate, pre_step_energy))", 1, note="functor call -> stub; FP product -> assumed IEEE lemma (a>0,b>=0 => a*b>=0)"),
     Rule(r"auto calc_energy\s*=\s*physics\.make_calculator<InverseRangeCalculator>\(grid_id\);", "size_type calc_energy = grid_id;", 1, note="calculator object -> its grid id"),
-    Rule(r"calc_energy\(range - step\)", "IRC_call(calc_energy, range - step)", 1, note="functor call -> stub"),
-    Rule(r"pre_step_energy \* physics\.scalars\(\)\.linear_loss_limit", "FMUL_frac(pre_step_energy, physics->t->linear_loss_limit)", 1, note="FP product -> assumed IEEE lemma (0 <= x*l <= x for 0<l<=1)"),
-    Rule(r"physics\.dedx_range\(\)", "PHV_dedx_range(physics)", 1, note="view call"),
-    Rule(r"Energy eloss;", "Energy eloss = 0;", 1, note="Quantity default = 0"),
+    Rule(r"calc_energy\(([^()]*)\)", r"IRC_call(calc_energy, \1)", "*", note="functor call -> stub"),
+    Rule(r"(\w+) \* physics\.scalars\(\)\.linear_loss_limit", r"FMUL_frac(\1, physics->t->linear_loss_limit)", "*", note="FP product -> assumed IEEE lemma (0 <= x*l <= x for 0<l<=1)"),
+    Rule(r"physics\.dedx_range\(\)", "PHV_dedx_range(physics)", "*", note="view call"),
+    Rule(r"Energy eloss;", "Energy eloss = 0;", (0, 1), note="Quantity default = 0"),
 ]
 
 
@@ -382,12 +383,14 @@ __CPROVER_requires(step > 0 && physics->t->eloss_ppid != INVALID_ID)      /* own
 /* state: finite non-negative energy; 0 < linear_loss_limit <= 1 (validated by PhysicsParams); the step does not exceed the range (pre-step limit) */
 __CPROVER_requires(particle->t->energy >= 0 && !__CPROVER_isinfd(particle->t->energy) && physics->t->linear_loss_limit > 0 && physics->t->linear_loss_limit <= 1)
 __CPROVER_requires(!__CPROVER_isinfd(step) && physics->t->dedx_range >= step && !__CPROVER_isinfd(physics->t->dedx_range))
-__CPROVER_assigns(g_E)
+__CPROVER_assigns(g_E, g_thresh, g_lin)
 /* non-negative, never more than the particle has */
 __CPROVER_ensures(__CPROVER_return_value >= 0 && __CPROVER_return_value <= particle->t->energy)
 /* a range-limited step loses everything, exactly, unless the linear estimate is below the linear-loss limit (then it is below E) */
 __CPROVER_ensures((step == physics->t->dedx_range && __CPROVER_return_value != particle->t->energy) ==> __CPROVER_return_value < particle->t->energy)
 __CPROVER_ensures((__CPROVER_return_value == particle->t->energy && particle->t->energy > 0) ==> step == physics->t->dedx_range)
+/* ... and when the linear estimate step*dE/dx reaches the linear-loss threshold limit*E, a range-limited step loses exactly E */
+__CPROVER_ensures((step == physics->t->dedx_range && g_lin >= g_thresh) ==> __CPROVER_return_value == particle->t->energy)
 """
 
 
@@ -416,7 +419,7 @@ MEL_RULES = Q_RULES + [
 
 def build_mean_eloss(ctx):
     pc = ctx.func(MEL, r"CELER_FUNCTION auto MeanELoss::calc_eloss\(CoreTrackView const& track,", MEL_RULES, name="MeanELoss::calc_eloss")
-    return (VHDR + CALC_STUBS.split("/* assumed contracts")[0] + "real_type g_E;\n" + CMEL_SIG % "VIEW_OK(particle) && VIEW_OK(physics)" + ";\n" + """
+    return (VHDR + CALC_STUBS.split("/* assumed contracts")[0] + "real_type g_E, g_thresh, g_lin;\n" + CMEL_SIG % "VIEW_OK(particle) && VIEW_OK(physics)" + ";\n" + """
 real_type g_d; unsigned g_calls;
 real_type MEL_calc_eloss(CoreTrackView const* track, real_type step, bool apply_cut)
 __CPROVER_requires(VIEW_OK(track) && step > 0)     /* own CELER_EXPECT */
@@ -425,7 +428,7 @@ __CPROVER_requires(track->t->energy > 0 && !__CPROVER_isinfd(track->t->energy) &
 __CPROVER_requires(!__CPROVER_isinfd(step) && track->t->dedx_range >= step && !__CPROVER_isinfd(track->t->dedx_range))
 /* history: a step that equals the range was limited by the range limiter, which records the range action (calc_physics_step_limit) */
 __CPROVER_requires(step == track->t->dedx_range ==> track->t->post_step_action == track->t->range_action)
-__CPROVER_assigns(g_E)
+__CPROVER_assigns(g_E, g_thresh, g_lin)
 /* exactly the contract the ElossApplier relies on (EH_calc_eloss in unit c01_eloss_applier) */
 __CPROVER_ensures(__CPROVER_return_value >= 0 && __CPROVER_return_value <= track->t->energy)
 __CPROVER_ensures(__CPROVER_return_value == track->t->energy ==> (apply_cut || track->t->post_step_action == track->t->range_action))
